@@ -182,7 +182,9 @@ func execute(r *Run) *Result {
 		sa := []string{stracePath, "-f", "-qq", "-o", straceLog}
 		calls := map[string]bool{}
 		for _, f := range r.Faults {
-			sa = append(sa, "-P", filepath.Join(root, f.Path))
+			// strace matches path arguments literally and descriptors by their resolved path:
+			// give it both spellings (the process runs with cwd = root and uses relative paths)
+			sa = append(sa, "-P", filepath.Join(root, f.Path), "-P", f.Path)
 			calls[f.Syscall] = true
 		}
 		var cs []string
